@@ -273,7 +273,7 @@ func init() {
 		Floors: []Floor{
 			floorRule("LIN", "LIN", 4),
 			floorRule("COND", "COND", 6),
-			floorKey("Get closed-check", 2, "PATH/(*Channel).Get$1/"),
+			floorKey("Get closed-check", 2, "PATH/(*Channel).Get$call1/"),
 			floorKey("G Channel.buffer", 4, "G/", "Channel.buffer"),
 			floorKey("G Channel.rollback", 4, "G/", "Channel.rollback"),
 			floorKey("AT Channel", 5, "AT/(*Channel)"),
